@@ -230,6 +230,10 @@ def check_translates(seed):
     ii, jj = np.indices((40, 40))
     u[(ii - 30) ** 2 + (jj - 30) ** 2 < 16] = 1
     cases.append(("ushape2d", u, 1.0, [True, True]))
+    # the same domain upside down and lying on its side: which side of the seam holds the single piece matters
+    cases.append(("ushape2d-flipped", u[::-1, :].copy(), 1.0, [True, True]))
+    cases.append(("ushape2d-transposed", u.T.copy(), 0.5, [True, True]))
+    cases.append(("ushape2d-transposed-flipped", u.T[:, ::-1].copy(), 0.5, [True, False]))
     c = np.zeros((12, 12, 12))
     c[1:5, 1:5, 1:5] = 1
     c[5:9, 5:9, 1:5] = 1         # two cubes sharing an edge
